@@ -33,14 +33,15 @@ structure Sem where
 
 def union [BEq α] (a b : List α) : List α := a ++ b.filter (fun x => !a.contains x)
 def diff [BEq α] (a b : List α) : List α := a.filter (fun x => !b.contains x)
-def nub [BEq α] : List α → List α
-  | [] => []
-  | x :: xs => let r := nub xs; if r.contains x then r else x :: r
+/-- duplicates removed, first occurrence kept (the list represents a set; the order only fixes
+the factor order of the terms `/` builds from "all factors of a") -/
+def nub [BEq α] (l : List α) : List α := dedup l
 
 def interT (a b : STerm) : STerm := dedup (a ++ b)
 def interS (a b : List STerm) : List STerm := nub (a.flatMap (fun x => b.map (fun y => interT x y)))
 
-def natOfLexeme (s : String) : Option Nat := if s.toList.all Char.isDigit then s.toNat? else none
+def natOfLexeme (s : String) : Option Nat :=
+  if s.toList.all Char.isDigit then some (digitsVal s.toList) else none
 
 /-- the atom of an atomic expression (variable, backquoted name, call, `{…}`) -/
 def atomOf : Expr → Option Atom
@@ -82,6 +83,33 @@ def denT : Expr → Option (List STerm)
     | _ => none
   | e => (atomOf e).map (fun a => [[a]])
 
+/-- every `**` exponent is a literal ≥ 2: the part of the intercept-free fragment on which
+nothing is refused (`** 1` is D5) -/
+def expGe2 : Expr → Bool
+  | .grouping _ e _ => expGe2 e
+  | .binary l op r =>
+    if op.kind == .STAR_STAR then
+      expGe2 l && (match r with
+        | .literal t => (match natOfLexeme t.lexeme with | some n => decide (n ≥ 2) | none => false)
+        | _ => false)
+    else expGe2 l && expGe2 r
+  | _ => true
+
+/-- the terms of a resolved intercept-free value (a `Term`, or a `Model` of `Term`s), in the
+order the implementation holds them -/
+def termsOf : Obj → List STerm
+  | .c (.term cs) => [cs]
+  | .model m => m.common.filterMap (fun t => match t with | .term cs => some cs | _ => none)
+  | _ => []
+
+/-- a `Term`, or a `Model` without response and group-specific terms whose common terms are all
+`Term`s -/
+def isPlainValue : Obj → Bool
+  | .c (.term _) => true
+  | .model m => m.group.isEmpty && m.resp.isNone &&
+      m.common.all (fun t => match t with | .term _ => true | _ => false)
+  | _ => false
+
 /-- additive chain: items with their sign, leftmost first -/
 def chain : Expr → List (Bool × Expr)
   | .binary l op r =>
@@ -109,15 +137,18 @@ def literalItem (pos : Bool) (e : Expr) : Option Item :=
     | .unary op r => if pos && op.kind == .MINUS && isLit r "1" then some .remI else none
     | _ => none
 
+/-- one item of the effect side of `|` -/
+def effStep (st : Bool × List STerm) (it : Bool × Expr) : Option (Bool × List STerm) :=
+  match literalItem it.1 it.2 with
+  | some .addI => some (true, st.2)
+  | some .remI => some (false, st.2)
+  | _ => do
+    let ts ← denT it.2
+    pure (st.1, if it.1 then union st.2 ts else diff st.2 ts)
+
 /-- effect side of `|`: last intercept literal wins, implicit intercept by default -/
 def effChain (items : List (Bool × Expr)) : Option (Bool × List STerm) :=
-  items.foldlM (fun (st : Bool × List STerm) (it : Bool × Expr) =>
-    match literalItem it.1 it.2 with
-    | some .addI => some (true, st.2)
-    | some .remI => some (false, st.2)
-    | _ => do
-      let ts ← denT it.2
-      pure (st.1, if it.1 then union st.2 ts else diff st.2 ts)) (true, [])
+  items.foldlM effStep (true, [])
 
 def stripGroup : Expr → Expr
   | .grouping _ e _ => stripGroup e
@@ -162,38 +193,78 @@ def respAtom : Expr → Option Atom
     | _ => none
   | e => atomOf e
 
+/-- right-hand side of a formula -/
+def rhsOf : Expr → Expr
+  | .binary l op r => if op.kind == .TILDE then r else .binary l op r
+  | e => e
+
+/-- left-hand side of a formula, if it has one -/
+def respOf : Expr → Option Expr
+  | .binary l op _ => if op.kind == .TILDE then some l else none
+  | _ => none
+
+/-- state of the additive chain of the right-hand side: intercept, common terms, group terms -/
+abbrev ChainSt := Bool × List STerm × List SG
+
+def stepItem (st : ChainSt) : Item → ChainSt
+  | .addI => (true, st.2.1, st.2.2)
+  | .remI => (false, st.2.1, st.2.2)
+  | .plain true ts => (st.1, union st.2.1 ts, st.2.2)
+  | .plain false ts => (st.1, diff st.2.1 ts, st.2.2)
+  | .grp true gs => (st.1, st.2.1, union st.2.2 gs)
+  | .grp false gs => (st.1, st.2.1, diff st.2.2 gs)
+
+/-- the additive chain of a right-hand side, items taken left to right -/
+def denRhs (rhs : Expr) : Option ChainSt := do
+  let items ← (chain rhs).mapM topItem
+  pure (items.foldl stepItem (false, [], []))
+
 /-- Denotation of a whole formula AST; `none` = outside the documented language (`Lang`). -/
-def den (e : Expr) : Option Sem :=
-  let (resp, rhs) : Option Expr × Expr :=
-    match e with
-    | .binary l op r => if op.kind == .TILDE then (some l, r) else (none, e)
-    | _ => (none, e)
-  do
-    let ra ← match resp with
-      | some r => (respAtom r).map some
-      | none => some none
-    let items ← (chain rhs).mapM topItem
-    let st := items.foldl (fun (st : Bool × List STerm × List SG) it =>
-      match it with
-      | .addI => (true, st.2.1, st.2.2)
-      | .remI => (false, st.2.1, st.2.2)
-      | .plain true ts => (st.1, union st.2.1 ts, st.2.2)
-      | .plain false ts => (st.1, diff st.2.1 ts, st.2.2)
-      | .grp true gs => (st.1, st.2.1, union st.2.2 gs)
-      | .grp false gs => (st.1, st.2.1, diff st.2.2 gs)) (false, [], [])
-    pure ⟨ra, st.1, st.2.1, st.2.2⟩
+def den (e : Expr) : Option Sem := do
+  let ra ← match respOf e with
+    | some r => (respAtom r).map some
+    | none => some none
+  let st ← denRhs (rhsOf e)
+  pure ⟨ra, st.1, st.2.1, st.2.2⟩
 
 def Lang (e : Expr) : Bool := (den e).isSome
+
+/-- leftmost item of an additive chain -/
+def chainHead : Expr → Expr
+  | .binary l op r =>
+    if op.kind == .PLUS || op.kind == .MINUS then chainHead l else .binary l op r
+  | e => e
+
+/-- the right-hand side is an additive chain that starts with the literal `1` — what the scanner's
+implicit `1 +` produces (whenever the formula has a `~`, and without one unless a bare `|` ends up
+on top) -/
+def implicitOne (e : Expr) : Bool := isLit (chainHead (rhsOf e)) "1"
+
+/-- the whole formula is one bare `eff | grp` (no `~`; the scanner's `1 +` ends up inside `eff`) -/
+def barePipe (e : Expr) : Bool :=
+  match e with
+  | .binary _ op _ => op.kind == .PIPE
+  | _ => false
+
+/-- a common term read as a term of the algebra: `none` = the intercept; a left-over
+NegatedIntercept is not a term -/
+def cOf : CTerm → Option (Option STerm)
+  | .term cs => some (some cs)
+  | .intercept => some none
+  | .negIntercept => none
+
+/-- a group-specific term read as a term of the algebra -/
+def sgOf (g : GTerm) : Option SG :=
+  match g.expr, g.factor with
+  | .term a, .term f => some ⟨some a, f⟩
+  | .intercept, .term f => some ⟨none, f⟩
+  | _, _ => none
 
 /-- What `model_description` returned, read as a `Sem` (`none` if it contains something that is
 not a term of the algebra, e.g. a left-over NegatedIntercept). -/
 def semOfModel (m : ModelV) : Option Sem := do
-  let cs ← m.common.mapM (fun t => match t with
-    | .term cs => some (some cs) | .intercept => some none | .negIntercept => none)
-  let gs ← m.group.mapM (fun g => match g.expr, g.factor with
-    | .term a, .term f => some (⟨some a, f⟩ : SG)
-    | .intercept, .term f => some ⟨none, f⟩
-    | _, _ => none)
+  let cs ← m.common.mapM cOf
+  let gs ← m.group.mapM sgOf
   let ra ← match m.resp with
     | some [a] => some (some a)
     | none => some none
@@ -206,22 +277,27 @@ def semEq (a b : Sem) : Bool :=
 -- ---------------------------------------------------------------------------------------------
 -- known gaps of the pinned tree (classes of inputs on which the implementation answers wrongly)
 -- ---------------------------------------------------------------------------------------------
+def isRemItem : Option Item → Bool
+  | some .remI => true
+  | _ => false
+
+def isAddItem : Option Item → Bool
+  | some .addI => true
+  | _ => false
+
 /-- D3: on the effect side of `|`, an intercept-removing literal that is not the first item, or
 an intercept-adding literal after a removal: the implementation forgets the removal. -/
 def effGapD3 (items : List (Bool × Expr)) : Bool :=
   let lits := items.map (fun it => literalItem it.1 it.2)
-  let isRem := fun (o : Option Item) => match o with | some .remI => true | _ => false
-  let isAdd := fun (o : Option Item) => match o with | some .addI => true | _ => false
-  (lits.drop 1).any isRem || ((lits.take 1).any isRem && (lits.drop 1).any isAdd)
+  (lits.drop 1).any isRemItem || ((lits.take 1).any isRemItem && (lits.drop 1).any isAddItem)
 
-def hasGapD3 (e : Expr) : Bool :=
-  let rhs := match e with
-    | .binary l op r => if op.kind == .TILDE then r else .binary l op r
-    | e => e
-  (chain rhs).any (fun it =>
-    match stripGroup it.2 with
-    | .binary eff op _ => op.kind == .PIPE && effGapD3 (chain eff)
-    | _ => false)
+/-- the D3 class of one chain item -/
+def itemD3 (r : Expr) : Bool :=
+  match stripGroup r with
+  | .binary eff op _ => op.kind == .PIPE && effGapD3 (chain eff)
+  | _ => false
+
+def hasGapD3 (e : Expr) : Bool := (chain (rhsOf e)).any (fun it => itemD3 it.2)
 
 mutual
 /-- some sub-expression (outside call arguments) satisfies `p` -/
@@ -264,11 +340,17 @@ def gapD22 (e : Expr) : Bool :=
        | _, _ => false)
     | _ => false) e
 
+/-- an integer literal of value 1 (`1`, `01`, …) -/
+def isOneLit (e : Expr) : Bool :=
+  match e with
+  | .literal t => t.kind == .NUMBER && natOfLexeme t.lexeme == some 1
+  | _ => false
+
 /-- D5: `(…) ** 1` — the literal 1 is resolved to an Intercept. -/
 def gapD5 (e : Expr) : Bool :=
   anySub (fun x =>
     match x with
-    | .binary _ op r => op.kind == .STAR_STAR && isLit (stripGroup r) "1"
+    | .binary _ op r => op.kind == .STAR_STAR && (isLit (stripGroup r) "1" || isOneLit r)
     | _ => false) e
 
 /-- D4: missing overloads around intercept literals (`Term ± literal`, `Intercept - Term`,
@@ -302,9 +384,38 @@ def gapD24 (e : Expr) : Bool :=
        | _ => false)
     | _ => false) e
 
+/-- D25: same root cause as D24 (`Model(*terms)` keeps duplicates), exposed by `**`:
+`Model.__pow__` forms `itertools.combinations` of the term list *with* its duplicates, so the two
+copies of a term pair with a third term in both orders and the same interaction comes out twice
+with permuted factors: `((p + r + p:q):q) ** 2` has both `p:q:r` and `r:q:p` (and a following
+`- p:q:r` leaves `r:q:p` behind). -/
+def gapD25 (e : Expr) : Bool :=
+  anySub (fun x =>
+    match x with
+    | .binary l op _ =>
+      op.kind == .STAR_STAR &&
+      (match resolve ops l with
+       | .ok (.model m) => (nub m.common).length != m.common.length
+       | _ => false)
+    | _ => false) e
+
+/-- D26: same root cause again (`Model(*terms)` keeps duplicates), exposed by a bare top-level
+`|` (only possible without a `~`: `a | (g + h) * (g + k)` is scanned to `1 + a | …` and parsed as
+`(1 + a) | …`): the result of `Model.__or__` is returned as it is, no `add_term` ever runs, and a
+duplicate on either side of `|` gives the same group-specific term twice. -/
+def gapD26 (e : Expr) : Bool :=
+  match e with
+  | .binary _ op _ =>
+    op.kind == .PIPE &&
+    (match describe ops e with
+     | .ok m => (nub m.group).length != m.group.length
+     | .error _ => false)
+  | _ => false
+
 def gapClasses (e : Expr) : List String :=
   (if hasGapD3 e then ["D3"] else []) ++ (if gapD4 ops e then ["D4"] else []) ++ (if gapD5 e then ["D5"] else []) ++
-  (if gapD22 ops e then ["D22"] else []) ++ (if gapD24 ops e then ["D24"] else [])
+  (if gapD22 ops e then ["D22"] else []) ++ (if gapD24 ops e then ["D24"] else []) ++
+  (if gapD25 ops e then ["D25"] else []) ++ (if gapD26 ops e then ["D26"] else [])
 end
 
 end FormulaeModel.Spec.C02
